@@ -198,6 +198,21 @@ def generic_inputs(chk, rs, n_cases, system="qubit"):
                     if not coords.close(np.asarray(rv), ref, 1e-6 * (1 + scale)):
                         chk.violation("generic:var_vs_obj:%s:%s" % (kind, "para" if para else "nopara"),
                                       "variable-level routine differs from object-level (max dev %.3g)" % float(np.max(np.abs(np.asarray(rv) - ref))), dict(kind=kind, i=i, order=order))
+            # the closures handed to the optimisers, asked for the OTHER parametrisation than the template's own (the flag
+            # named in the call decides which vector is meant)
+            try:
+                rs_local = np.random.RandomState(seed)
+                o4 = mk(mode_proj_order="eq_ineq", eps_proj_physical=1e-14)          # template with the default flag (True)
+                full = stacked(o4).copy()
+                with contextlib.redirect_stdout(io.StringIO()):
+                    want_full = stacked(o4.calc_proj_physical())
+                    for fname in ("func_calc_proj_physical", "func_calc_proj_physical_with_var"):
+                        got = np.asarray(getattr(o4, fname)(on_para_eq_constraint=False)(full.copy()))
+                        if got.shape != want_full.shape or not coords.close(got, want_full, 1e-6 * (1 + scale)):
+                            chk.violation("generic:closure_explicit_flag:%s:%s" % (fname, kind),
+                                          "%s(on_para_eq_constraint=False) on a template built with True does not project the full vector" % fname, dict(kind=kind, i=i))
+            except Exception as e:
+                chk.violation("generic:closure_explicit_flag:exception:" + kind, "%r" % e, dict(kind=kind, i=i))
             if len(results) == 2 and np.max(np.abs(results["eq_ineq"] - results["ineq_eq"])) > 2e-5 * (1 + scale):
                 chk.violation("generic:order_dependence:" + kind, "the two projection orders give different points (max dev %.3g)" % float(np.max(np.abs(results["eq_ineq"] - results["ineq_eq"]))), dict(kind=kind, i=i))
         except Exception as e:
